@@ -25,13 +25,6 @@ Definition lplace (pre v : list byte) : list byte :=
   if Z.of_nat (length v) <=? maxj - j - 1 then pre ++ v
   else pre ++ firstn (Z.to_nat (maxj - j - 1)) v ++ [0].
 
-(* the text before the first NUL *)
-Fixpoint cut0 (l : list byte) : list byte :=
-  match l with
-  | [] => []
-  | c :: t => if c =? 0 then [] else c :: cut0 t
-  end.
-
 (* ASSERT_RVAL(j < CONFIG_BUFF, NULL); newbuff[j] = 0; strcpy(s, newbuff): the new text of s *)
 Definition lfinish (pre : list byte) : option (list byte) :=
   if Z.of_nat (length pre) <? config_buff then Some (cut0 pre) else None.
@@ -39,6 +32,8 @@ Definition lfinish (pre : list byte) : option (list byte) :=
 Section ListLevel.
 Variable genv : list byte -> option (list byte).
 Variable progname progver : list byte.
+Variable exec_out : list byte -> exec_answer.
+Variable dir_list : list byte -> dir_answer.
 
 Definition lbody (self : list byte -> list byte -> bool -> bool -> store -> llres)
                  (s pre : list byte) (q1 q2 : bool) (st : store) : llres :=
@@ -79,7 +74,7 @@ Definition lbody (self : list byte -> list byte -> bool -> bool -> store -> llre
                 | LLNull st1 => (None, st1)
                 | _ => (None, st)
                 end in
-            let '(out, st2) := s_builtin progname progver code param st1 in
+            let '(out, st2) := s_builtin progname progver exec_out dir_list code param st1 in
             match out with
             | BExt e => LLExt e
             | BStr (o :: ot) => self rest (lplace pre (o :: ot)) q1 q2 st2
